@@ -477,4 +477,23 @@ theorem evalSteps_pathOfWith_self (cnt : Node → Node → Bool) (top : Node) (i
       have hwalk := evalFrom_pathToWith cnt top is top [] st rfl hs hpt
       simpa [evalSteps] using hwalk
 
+/-! ### replacing the dummy `<document>` element by a document node -/
+
+/-- below the root, a path depends on the root only through its `children` list -/
+theorem pathOfWith_kids (cnt : Node → Node → Bool) (top top' : Node) (h : top.kids = top'.kids)
+    (i : Nat) (is : List Nat) (sel : Sel) :
+    pathOfWith cnt top ⟨i :: is, sel⟩ = pathOfWith cnt top' ⟨i :: is, sel⟩ := by
+  simp only [pathOfWith, pathToWith, descend, h]
+
+theorem replaceDummy_kids (w : Node) : (replaceDummy w).kids = w.kids := rfl
+
+theorem replaceDummy_wf (w : Node) (h : w.wf = true) : (replaceDummy w).wf = true := by
+  cases w with
+  | elem nm nss attrs kids =>
+    simp only [Node.wf, Bool.and_eq_true] at h
+    simp [replaceDummy, docNode, Node.wf, Node.kids, nodupB, h.2]
+  | text => simp [replaceDummy, docNode, Node.wf, Node.kids, nodupB, wfList]
+  | comment => simp [replaceDummy, docNode, Node.wf, Node.kids, nodupB, wfList]
+  | pi t => simp [replaceDummy, docNode, Node.wf, Node.kids, nodupB, wfList]
+
 end EPV.NodePath
